@@ -278,7 +278,7 @@ func (a *NilAnalysis) updateParams(fns []*ssa.Function) bool {
 			if ag != nil {
 				v = ag.nn[k]
 			}
-			if s.paramNonNil[k] && !v {
+			if s.paramNonNil[k] && !v && !a.freezeNN {
 				s.paramNonNil[k] = false
 				changed = true
 			}
@@ -389,6 +389,9 @@ func widerScope(p *Prog, l *Ledger, rule string) []*ssa.Function {
 func ruleNilDeref(p *Prog, l *Ledger, tier string) {
 	const rule = "E1.nilderef"
 	a := NewNilAnalysis(p)
+	if !a.converged {
+		l.Undecide(rule, "", rule+"|fixpoint", "", "the interprocedural non-nil / numeric summaries did not reach a fixpoint within the round limit: facts read from them are not justified")
+	}
 	trivial, sites := 0, 0
 	for _, fn := range c08Scope(p, l, rule, tier) {
 		fname := FnName(fn)
